@@ -219,8 +219,15 @@ class Cx:
                                          path=self.npaths))
                 return
             if each:
+                nsat = 0
                 for idx, part, g in goals:
+                    # one counterexample per assertion is enough: after two failing elements
+                    # the remaining elements of this array comparison are not queried
+                    if nsat >= 2:
+                        break
                     self._prove_sym("%s%s.%s" % (label, list(idx), part), g)
+                    if self.records[-1]["verdict"] == "sat":
+                        nsat += 1
             else:
                 self._prove_sym(label, z3.And([g for _, _, g in goals]))
         else:
